@@ -136,73 +136,113 @@ func c12SSH(c *Ctx) {
 		return ok && cv.X == ssa.Value(pw) && types.Identical(cv.Type().Underlying(), types.Typ[types.String])
 	}
 	nsucc, nfail := 0, 0
-	for i, r := range Returns(cb) {
-		rv := RetVals(r)
-		key := fmt.Sprintf("PasswordCallback return[%d]", i)
-		conds := DomConds(r)
-		if IsNilConst(rv[1]) {
-			nsucc++
-			wild := false
-			var partsCall *ssa.Call
-			userOK, pwOK, lenOK := false, false, false
-			for _, dc := range conds {
-				x, y, ok := eqCond(dc)
-				if !ok {
-					continue
-				}
-				if s, isS := ConstString(y); isS && s == "*" && rangeElemOfField(x, "Credentials") {
-					wild = true
-				}
-				for _, pr := range [][2]ssa.Value{{x, y}, {y, x}} {
-					a, b := pr[0], pr[1]
-					if isUser(a) {
-						if el, sc, ok := splitPart(b, ":", 0); ok && rangeElemOfField(el, "Credentials") {
-							userOK = true
-							partsCall = sc
+	var decide func(fn *ssa.Function, isUser, isPw func(ssa.Value) bool, accepts func(*ssa.Return) bool, label string, depth int)
+	decide = func(fn *ssa.Function, isUser, isPw func(ssa.Value) bool, accepts func(*ssa.Return) bool, label string, depth int) {
+		for i, r := range Returns(fn) {
+			key := fmt.Sprintf("%s return[%d]", label, i)
+			conds := DomConds(r)
+			// the decision may be delegated to a helper: `if s.credentialsAccept(user, password) { accept } reject`
+			if depth == 0 {
+				delegated := false
+				for _, dc := range conds {
+					hc, pol := condCall(dc)
+					if hc == nil {
+						continue
+					}
+					hf := hc.Call.StaticCallee()
+					if hf == nil || !InRepo(hf) || hf.Blocks == nil || hf.Signature.Results().Len() != 1 || !types.Identical(hf.Signature.Results().At(0).Type().Underlying(), types.Typ[types.Bool]) {
+						continue
+					}
+					var up, pp *ssa.Parameter
+					for ai, a := range hc.Call.Args {
+						if ai < len(hf.Params) && isUser(Unwrap(a)) {
+							up = hf.Params[ai]
+						}
+						if ai < len(hf.Params) && isPw(Unwrap(a)) {
+							pp = hf.Params[ai]
 						}
 					}
-					if isPw(a) {
-						if el, sc, ok := splitPart(b, ":", 1); ok && rangeElemOfField(el, "Credentials") {
-							pwOK = partsCall == nil || partsCall == sc
-							if partsCall == nil {
+					if up == nil || pp == nil || pol != accepts(r) {
+						continue
+					}
+					delegated = true
+					if accepts(r) { // analyse the helper once, from the accepting side
+						decide(hf, func(v ssa.Value) bool { return v == ssa.Value(up) }, func(v ssa.Value) bool { return v == ssa.Value(pp) },
+							func(r2 *ssa.Return) bool {
+								k, ok := RetVals(r2)[0].(*ssa.Const)
+								return ok && k.Value != nil && k.Value.String() == "true"
+							}, shortFn(hf), 1)
+					}
+				}
+				if delegated {
+					continue
+				}
+			}
+			if accepts(r) {
+				nsucc++
+				wild := false
+				var partsCall *ssa.Call
+				userOK, pwOK, lenOK := false, false, false
+				for _, dc := range conds {
+					x, y, ok := eqCond(dc)
+					if !ok {
+						continue
+					}
+					if s, isS := ConstString(y); isS && s == "*" && rangeElemOfField(x, "Credentials") {
+						wild = true
+					}
+					for _, pr := range [][2]ssa.Value{{x, y}, {y, x}} {
+						a, b := pr[0], pr[1]
+						if isUser(a) {
+							if el, sc, ok := splitPart(b, ":", 0); ok && rangeElemOfField(el, "Credentials") {
+								userOK = true
 								partsCall = sc
 							}
 						}
-					}
-				}
-				// len(parts) == 2
-				if call, ok := x.(*ssa.Call); ok {
-					if bi, ok := call.Call.Value.(*ssa.Builtin); ok && bi.Name() == "len" {
-						if n, isC := ConstInt(y); isC && n == 2 {
-							if sc, ok := call.Call.Args[0].(*ssa.Call); ok && FuncIs(sc.Call.StaticCallee(), "strings", "Split") {
-								lenOK = true
+						if isPw(a) {
+							if el, sc, ok := splitPart(b, ":", 1); ok && rangeElemOfField(el, "Credentials") {
+								pwOK = partsCall == nil || partsCall == sc
+								if partsCall == nil {
+									partsCall = sc
+								}
 							}
 						}
 					}
-				}
-			}
-			ok := wild || (userOK && pwOK && lenOK)
-			why := fmt.Sprintf("conditions at this success return: %v", RenderConds(conds))
-			c.Check(ok, "ssh-success-iff-credential", key, p.InstrPos(r), "success under wildcard or exact user:password match of a configured entry", "authentication succeeds without (credential==\"*\") or (len(parts)==2 && user==parts[0] && password==parts[1]) for a configured credential; "+why)
-		} else {
-			nfail++
-			// failure only after the whole list was scanned: not in the loop, and dominated by the range loop's exhaustion edge
-			exhausted := false
-			for _, dc := range conds {
-				b, ok := dc.V.(*ssa.BinOp)
-				if ok && b.Op == token.LSS && !dc.Pol && isAscendingIndex(b.X) {
-					if call, ok := b.Y.(*ssa.Call); ok {
+					// len(parts) == 2
+					if call, ok := x.(*ssa.Call); ok {
 						if bi, ok := call.Call.Value.(*ssa.Builtin); ok && bi.Name() == "len" {
-							if _, ok := isFieldLoadNamed(call.Call.Args[0], "Credentials"); ok {
-								exhausted = true
+							if n, isC := ConstInt(y); isC && n == 2 {
+								if sc, ok := call.Call.Args[0].(*ssa.Call); ok && FuncIs(sc.Call.StaticCallee(), "strings", "Split") {
+									lenOK = true
+								}
 							}
 						}
 					}
 				}
+				ok := wild || (userOK && pwOK && lenOK)
+				why := fmt.Sprintf("conditions at this success return: %v", RenderConds(conds))
+				c.Check(ok, "ssh-success-iff-credential", key, p.InstrPos(r), "success under wildcard or exact user:password match of a configured entry", "authentication succeeds without (credential==\"*\") or (len(parts)==2 && user==parts[0] && password==parts[1]) for a configured credential; "+why)
+			} else {
+				nfail++
+				// failure only after the whole list was scanned: not in the loop, and dominated by the range loop's exhaustion edge
+				exhausted := false
+				for _, dc := range conds {
+					b, ok := dc.V.(*ssa.BinOp)
+					if ok && b.Op == token.LSS && !dc.Pol && isAscendingIndex(b.X) {
+						if call, ok := b.Y.(*ssa.Call); ok {
+							if bi, ok := call.Call.Value.(*ssa.Builtin); ok && bi.Name() == "len" {
+								if _, ok := isFieldLoadNamed(call.Call.Args[0], "Credentials"); ok {
+									exhausted = true
+								}
+							}
+						}
+					}
+				}
+				c.Check(exhausted && !InLoop(r.Block()), "ssh-failure-only-after-scan", key, p.InstrPos(r), "rejection only after every configured credential was tried", "a rejection is returned before the whole credential list was scanned (an entry later in the list, or the wildcard, would be ignored): "+fmt.Sprint(RenderConds(conds)))
 			}
-			c.Check(exhausted && !InLoop(r.Block()), "ssh-failure-only-after-scan", key, p.InstrPos(r), "rejection only after every configured credential was tried", "a rejection is returned before the whole credential list was scanned (an entry later in the list, or the wildcard, would be ignored): "+fmt.Sprint(RenderConds(conds)))
 		}
 	}
+	decide(cb, isUser, isPw, func(r *ssa.Return) bool { return IsNilConst(RetVals(r)[1]) }, "PasswordCallback", 0)
 	c.Check(nsucc >= 2 && nfail >= 1, "ssh-success-iff-credential", "PasswordCallback arms", p.Pos(cb.Pos()), "wildcard, exact-match and rejection arms present", fmt.Sprintf("expected wildcard + exact-match success arms and a rejection arm, found %d success / %d failure returns", nsucc, nfail))
 	// event before decision
 	var send *ssa.Call
@@ -697,6 +737,21 @@ func c12FTP(c *Ctx) {
 		}
 		if call, ok := atom.(*ssa.Call); ok && call.Call.IsInvoke() && call.Call.Method.Name() == "RequireAuth" {
 			return i == trueIdx // delete the false edge (no auth required)
+		}
+		// `case cmd.RequireAuth() && conn.user == "":` – the materialised conjunction: its false outcome admits
+		// "no auth required" or "logged in", so that edge is the enabling one
+		if ph, ok := atom.(*ssa.Phi); ok {
+			if ops, ok := Conjuncts(ph, true); ok {
+				gate := false
+				for _, o := range ops {
+					if call, ok := o.V.(*ssa.Call); ok && o.Pol && call.Call.IsInvoke() && call.Call.Method.Name() == "RequireAuth" {
+						gate = true
+					}
+				}
+				if gate {
+					return i == trueIdx
+				}
+			}
 		}
 		s := Render(atom)
 		switch s {
